@@ -28,7 +28,7 @@ MSNOTE = E1NOTE + "; multistore driven directly (no ABCI app); MemDB unless stat
 claim("C04", "E1-kvmodel", "exploration", "differential runtime monitor: reopen-from-DB vs recorded commit IDs and per-version reference maps; never-reopened replica twin; replay of later blocks from every fourth retained version on a DB copy",
       "generated block histories on the real rootmulti/IAVL stores; store objects rebuilt over the same DB (MemDB and on-disk goleveldb) at random points and at every version; LastCommitID, per-substore hashes and full contents compared with what was observed before closing and with a replica that never reopened; held-on-observed",
       MSNOTE, "DESIGN.md §4 C04")
-claim("C06", "E1-kvmodel", "exploration", "twin-run differential monitor (with / without / with noisy transient writes, reversed mounting, interleaved reads) + per-commit invariants",
+claim("C06", "E1-kvmodel", "exploration", "twin-run differential monitor (with / without / with noisy transient writes, reversed mounting, interleaved reads, abandoned blocks reloaded on the same store object) + per-commit invariants",
       "three stores fed identical persistent writes but different transient writes, mount order and read traffic must report identical, consecutive, non-empty commit IDs at every block; transient store asserted empty at first access after each commit; held-on-observed",
       MSNOTE, "DESIGN.md §4 C06")
 claim("C07", "E2-faultdb", "fault_enumeration", "write-event enumeration: DB snapshot after every durable write of every commit, recovery + re-execution compared with the uninterrupted run",
@@ -40,7 +40,7 @@ claim("C08", "E1-kvmodel", "exploration", "runtime monitor over every rollback t
 claim("C09", "E1-kvmodel", "exploration", "runtime monitor: long-lived historical views re-read after and in the middle of later writes vs per-height reference maps",
       "historical views opened through LoadLazyVersion and CacheMultiStoreWithVersion are kept open across dozens of later commits and re-read completely, plus historical ABCI store queries; every value compared with the model recorded when that height was committed; held-on-observed (store level; node-level reads are covered by the chain engine where built)",
       MSNOTE, "DESIGN.md §4 C09")
-claim("C10", "E1-kvmodel", "exploration", "twin-run differential monitor: state cache on vs off, every cached height, Get/Has/iterators over generated ranges",
+claim("C10", "E1-kvmodel", "exploration", "twin-run differential monitor: state cache on vs off, every cached height, Get/Has/iterators over generated ranges, iterators kept open across a commit",
       "two multistores (cache on/off) fed identical histories; at every height in the cache window point reads (nil-ness included), existence checks and forward/reverse iteration over generated ranges must agree; three genuine defects found this way were repaired by fix: commits in /repo",
       MSNOTE, "DESIGN.md §4 C10")
 ENGINES.append({"name": "E2-faultdb", "path": "internal/faultdb", "serves_properties": ["C07"], "kind_free_text": "fault injection: dbm.DB wrapper numbering every durable write; snapshot/cut after event k"})
@@ -107,7 +107,7 @@ claim("C30", "E6-ref", "exploration", "mutation-operator runtime monitor on vali
 claim("C38", "E6-ref", "exploration", "round-trip runtime monitor over 38 registered types x {amino, proto, proto at switch height, JSON, param JSON} with a reflection-based structural oracle; sign-bytes canonicity probes",
       "generated values (empty, maximal, nil vs empty, extreme ints, unicode and invalid UTF-8) through every codec route: decode(encode(v)) == v structurally and encode(decode(encode(v))) == encode(v); sign bytes invariant under map/field order and sensitive to every signed field; one defect repaired (fix: commit), three listed as known findings",
       E6NOTE, "DESIGN.md §4 C38")
-claim("C39", "E6-ref", "exploration", "differential runtime monitor vs Go stdlib ed25519 / ecdsa-over-secp256k1 oracles and a strict multisignature codec; single-byte mutation and permutation operators",
+claim("C39", "E6-ref", "exploration", "differential runtime monitor vs Go stdlib ed25519 / ecdsa-over-secp256k1 oracles and a strict multisignature codec; single-byte mutation, boundary-shift and permutation operators",
       "sign/verify for ed25519, secp256k1 and 2-8 member (nested) multisig keys; every single-byte mutation of message or signature, foreign keys, truncation/extension, permuted/missing/duplicated member signatures must fail; encodings stable through hex/raw/amino/JSON; multisig signature malleability via lenient amino decoding is listed as three known findings",
       E6NOTE, "DESIGN.md §4 C39")
 claim("C40", "E6-ref", "exploration", "runtime monitor: armor encrypt/decrypt with right/wrong passphrases and armor mutations; keybase (memory + on-disk) operation sequences vs a map model",
